@@ -77,6 +77,8 @@ def graph_check(chk, sources, progs, invariants, properties, name="graph", timeo
     pp = write_progs(d, progs)
     cfg = "SPECIFICATION Spec\nINVARIANT %s\n%sVIEW GraphView\nCHECK_DEADLOCK FALSE\n" % (
         " ".join(invariants), ("PROPERTY " + " ".join(properties) + "\n") if properties else "")
+    if "FramesRefine" in properties:
+        cfg += "CONSTANT Sizes <- [TheoFrames] FiniteSizes\n"      # TLC cannot enumerate Nat
     res = tlc("TheoVM", cfg, chk.pid, name, env={"PROGS": pp, "HISTK": "0"}, timeout=timeout, xmx=xmx, coverage=False)
     if not require_ok(res, "TheoVM graph"):
         chk.violation("graph:" + res.violated,
